@@ -40,6 +40,7 @@ func FuzzImportString(f *testing.F) {
 		f.Add(s)
 	}
 	f.Fuzz(func(t *testing.T, s string) {
+		pbt.FuzzTrace(s)
 		if len(s) > 96 {
 			t.Skip()
 		}
